@@ -19,7 +19,11 @@
      succeeds and is not a directory".  Error kinds are not distinguished; file
      contents are identifiers with 0 standing for the empty string.
    * Entry kind and symlink target (Entry.Kind / Entry.Symlink, realFS.kind)
-     are an observation [OKind] that records nothing, as in the Go code. *)
+     are the observation [OKind]; since the fix for findings G/G2 the target of
+     a symlink entry is recorded in the directory's accessedEntries and
+     re-evaluated by the directory's predicate; the kind of a plain entry has
+     no record.  Since the fix for finding F a failed ReadFile on a path whose
+     record is stateDirHasAccessedEntries keeps that record. *)
 From V Require Import Common.Base C09.Cache.
 
 Definition name := list Z.
@@ -57,7 +61,8 @@ Definition wstate_code (s : wstate) : Z :=
   end.
 
 (* accessedEntries: wasPresent (newest binding first) and allEntries (nil = None) *)
-Record accessed := mkAcc { ac_present : list (name * bool); ac_all : option (list name) }.
+(* symlinks (added by the fix for findings G/G2): entry name -> what the link resolved to *)
+Record accessed := mkAcc { ac_present : list (name * bool); ac_all : option (list name); ac_links : list (name * option Z) }.
 (* privateWatchData *)
 Record wdata := mkWd { wd_acc : option accessed; wd_contents : Z; wd_key : list Z; wd_state : wstate }.
 
@@ -75,11 +80,14 @@ Record wworld := mkWw {
   ww_read : path -> rdres;
   ww_modkey : path -> mkres;
   ww_isfile : path -> bool;       (* os.Stat succeeds and !IsDir *)
-  (* Entry.Kind / Entry.Symlink of entry n of directory d (realFS.kind: lstat,
-     and EvalSymlinks + lstat of the target for a symlink):
-     kind 0 = neither (absent, dangling link, lstat error), 1 = directory, 2 = file;
-     the resolved target of a symlink, None for a plain entry *)
-  ww_kind : path -> name -> Z * option Z
+  (* realFS.kind on entry n of directory d: lstat, and for a symlink
+     EvalSymlinks + lstat of the target.
+     ww_kind   0 = neither (absent, dangling link, lstat error), 1 = directory, 2 = file
+     ww_islink lstat says the entry is a symlink
+     ww_eval   what EvalSymlinks(d/n) returns (None when it fails, e.g. dangling or absent) *)
+  ww_kind : path -> name -> Z;
+  ww_islink : path -> name -> bool;
+  ww_eval : path -> name -> option Z
 }.
 
 (* realFS.ReadDirectory (cached per build) *)
@@ -88,7 +96,7 @@ Definition op_readdir (f : wfs) (d : path) (ans : option (list name)) : wfs :=
   | Some _ => f
   | None =>
       let st := match ans with Some _ => SDirHasAccessedEntries | None => SDirUnreadable end in
-      mkWfs ((d, mkWd (Some (mkAcc [] None)) 0 [] st) :: wf_data f) ((d, ans) :: wf_dirs f)
+      mkWfs ((d, mkWd (Some (mkAcc [] None [])) 0 [] st) :: wf_data f) ((d, ans) :: wf_dirs f)
   end.
 
 Definition upd_acc (f : wfs) (d : path) (g : accessed -> accessed) : wfs :=
@@ -106,14 +114,14 @@ Definition op_get (f : wfs) (d : path) (n : name) : wfs :=
   match lookup d (wf_dirs f) with
   | Some (Some names) =>
       let key := lower n in
-      upd_acc f d (fun a => mkAcc ((key, name_in key (map lower names)) :: ac_present a) (ac_all a))
+      upd_acc f d (fun a => mkAcc ((key, name_in key (map lower names)) :: ac_present a) (ac_all a) (ac_links a))
   | _ => f
   end.
 
 (* DirEntries.SortedKeys *)
 Definition op_sortedkeys (f : wfs) (d : path) : wfs :=
   match lookup d (wf_dirs f) with
-  | Some (Some names) => upd_acc f d (fun a => mkAcc (ac_present a) (Some (sort_names names)))
+  | Some (Some names) => upd_acc f d (fun a => mkAcc (ac_present a) (Some (sort_names names)) (ac_links a))
   | _ => f
   end.
 
@@ -122,7 +130,10 @@ Definition op_readfile (f : wfs) (p : path) (ans : rdres) : wfs :=
   let (r, ok) := match lookup p (wf_data f) with Some r => (r, true) | None => (wd_zero, false) end in
   let st :=
     match ans with
-    | RdErr _ => SFileMissing
+    | RdErr _ =>
+        (* a listed directory that is also read as a file stays a directory record (fix for finding F) *)
+        if ok then match wd_state r with SDirHasAccessedEntries => SDirHasAccessedEntries | _ => SFileMissing end
+        else SFileMissing
     | RdOk _ =>
         if negb ok then SFileNeedModKey
         else match wd_state r with SDirUnreadable => SFileNeedModKey | s => s end
@@ -142,6 +153,12 @@ Definition op_modkey (f : wfs) (p : path) (ans : mkres) : wfs :=
       mkWfs ((p, mkWd (wd_acc r) (wd_contents r) key st) :: wf_data f) (wf_dirs f)
   end.
 
+(* realFS.kind: for a symlink entry, remember what it resolved to in the
+   accessedEntries of the directory's record (fix for findings G/G2); nothing
+   is stored for a plain entry *)
+Definition op_kind (f : wfs) (d : path) (n : name) (islink : bool) (ev : option Z) : wfs :=
+  if islink then upd_acc f d (fun a => mkAcc (ac_present a) (ac_all a) ((n, ev) :: ac_links a)) else f.
+
 (* observations a build makes *)
 Inductive obs :=
 | OReadDir (d : path) | OGet (d : path) (n : name) | OSortedKeys (d : path)
@@ -158,7 +175,7 @@ Definition step_obs (w : wworld) (f : wfs) (o : obs) : wfs :=
   | OSortedKeys d => op_sortedkeys f d
   | OReadFile p => op_readfile f p (ww_read w p)
   | OModKey p => op_modkey f p (ww_modkey w p)
-  | OKind _ _ => f     (* realFS.kind stores nothing for the watcher *)
+  | OKind d n => op_kind f d n (ww_islink w d n) (ww_eval w d n)
   end.
 
 Definition record (w : wworld) (log : list obs) : wfs := fold_left (step_obs w) log wfs_empty.
@@ -191,6 +208,13 @@ Fixpoint present_map (l : list (name * bool)) (seen : list name) : list (name * 
   | (k, b) :: r => if name_in k seen then present_map r seen else (k, b) :: present_map r (k :: seen)
   end.
 
+(* symlinks as a map: newest binding per name *)
+Fixpoint link_map (l : list (name * option Z)) (seen : list name) : list (name * option Z) :=
+  match l with
+  | [] => []
+  | (k, b) :: r => if name_in k seen then link_map r seen else (k, b) :: link_map r (k :: seen)
+  end.
+
 (* the predicate of one record evaluated on a (later) world: true = dirty *)
 Definition dirty1 (w' : wworld) (p : path) (r : wdata) : bool :=
   match wd_state r with
@@ -205,6 +229,9 @@ Definition dirty1 (w' : wworld) (p : path) (r : wdata) : bool :=
               existsb (fun kb => negb (Bool.eqb (snd kb) (name_in (fst kb) (map lower names))))
                       (present_map (ac_present a) [])
           end
+          (* every symlink still resolves to the same thing *)
+          || existsb (fun nl => negb (option_eqb Z.eqb (ww_eval w' p (fst nl)) (snd nl)))
+                     (link_map (ac_links a) [])
       | Some _, None => false
       end
   | SFileMissing => ww_isfile w' p
@@ -238,7 +265,7 @@ Definition answer_of (w : wworld) (o : obs) : answer :=
   | OSortedKeys d => AKeys (match ww_readdir w d with Some names => Some (sort_names names) | None => None end)
   | OReadFile p => ARead (match ww_read w p with RdOk c => Some c | RdErr _ => None end)
   | OModKey p => AStat (match ww_modkey w p with MKErr _ => false | _ => true end)
-  | OKind d n => AKind (fst (ww_kind w d n)) (snd (ww_kind w d n))
+  | OKind d n => AKind (ww_kind w d n) (if ww_islink w d n then ww_eval w d n else None)
   end.
 
 Definition answer_eqb (a b : answer) : bool :=
